@@ -28,6 +28,10 @@ Proof. exact loc_strict. Qed.
 Theorem C05_loc_injective : forall bs i j, i <= length bs -> j <= length bs -> to_loc bs i = to_loc bs j -> i = j.
 Proof. exact loc_injective. Qed.
 
+Theorem C05_loc_injective_on_line : forall bs i j, i <= length bs -> j <= length bs ->
+  fst (to_loc bs i) = fst (to_loc bs j) -> snd (to_loc bs i) = snd (to_loc bs j) -> i = j.
+Proof. exact loc_injective_on_line. Qed.
+
 (* always inside the input: the line exists, the column is at most one past the width of that line *)
 Theorem C05_loc_inside : forall bs i s, is_line_start bs i s ->
   fst (to_loc bs i) <= 1 + count_lf bs /\ snd (to_loc bs i) <= 1 + width (line_bytes bs s).
@@ -114,6 +118,7 @@ Print Assumptions C05_loc_one_based.
 Print Assumptions C05_loc_monotone.
 Print Assumptions C05_loc_strict.
 Print Assumptions C05_loc_injective.
+Print Assumptions C05_loc_injective_on_line.
 Print Assumptions C05_loc_inside.
 Print Assumptions C05_loc_exact_ascii.
 Print Assumptions C05_loc_exact_chars.
